@@ -1,6 +1,7 @@
 import NgoVerif.Meta.Meta2
 import NgoVerif.Meta.Compose
 import NgoVerif.Model.Unused
+import NgoVerif.Proofs.C09link
 /-!
 # C09 — unused removes or shrinks only what no output, constraint or objective can see
 
@@ -98,5 +99,68 @@ theorem C09_only_plain_rules_removed (ev : List Event) (added : List Pred) (s : 
   split at h
   · rename_i l c name args ext b; exact ⟨l, c, name, args, ext, b, rfl⟩
   · cases h
+
+/-! ## end to end, for typed programs: decision of the model ⇒ one-to-one correspondence of answer sets, equal costs
+
+`Sem.stdParams P` is the here-and-there semantics of typed programs with the standard head semantics
+(`Sem/Head.lean`), for *every* choice `P` of the arithmetic, comparison and aggregate parameters whose aggregates are
+persistent.  `C09sem.keep n k prg` is `prg` without the plain rules of `n/k` - what `remove_unused` of the model returns
+when `n/k` is the only removable predicate; for several predicates the step is iterated (`C09_unused_keep`). -/
+open Proofs.C09sem Proofs.C09link in
+/-- **decision ⇒ side condition** (`Proofs/C09link.lean`) -/
+theorem C09_decision_implies_unused (prg : Prog) (inputs outputs added : List Pred) (hok : ∀ s ∈ prg, stmOk s = true)
+    (l c : Nat) (name : String) (args : List Term) (ext : Bool) (b : List BLit)
+    (hrem : removable (analyzeUsage prg inputs outputs) added (.rule l c (.lit (.pos, .sym (.fn name args ext))) b) = true) :
+    Proofs.C09sem.Unused name args.length prg :=
+  removable_unused prg inputs outputs added hok l c name args ext b hrem
+
+open Proofs.C09sem Proofs.C09link in
+/-- **every answer set of the source is the unique extension of an answer set of the result, and they agree on every
+other predicate** -/
+theorem C09_removal_complete (P : Sem.Params) (hp : Sem.AggPersistent P) (prg : Prog) (inputs outputs added : List Pred)
+    (hok : ∀ s ∈ prg, stmOk s = true) (l c : Nat) (name : String) (args : List Term) (ext : Bool) (b : List BLit)
+    (hrem : removable (analyzeUsage prg inputs outputs) added (.rule l c (.lit (.pos, .sym (.fn name args ext))) b) = true)
+    (T' : Sem.Interp) (hT' : Sem.Stable (Sem.stdParams P) prg T') :
+    ∃ T, Sem.Stable (Sem.stdParams P) (keep name args.length prg) T ∧
+      (∀ a, T' a ↔ extend P name args.length prg T a) ∧
+      (∀ a, ¬ Sem.named (Sem.predSig name args.length) a → (T a ↔ T' a)) :=
+  unused_complete P hp name args.length prg (removable_unused prg inputs outputs added hok l c name args ext b hrem) T' hT'
+
+open Proofs.C09sem Proofs.C09link in
+/-- **every answer set of the result extends to an answer set of the source** -/
+theorem C09_removal_sound (P : Sem.Params) (prg : Prog) (inputs outputs added : List Pred)
+    (hok : ∀ s ∈ prg, stmOk s = true) (l c : Nat) (name : String) (args : List Term) (ext : Bool) (b : List BLit)
+    (hrem : removable (analyzeUsage prg inputs outputs) added (.rule l c (.lit (.pos, .sym (.fn name args ext))) b) = true)
+    (T : Sem.Interp) (hT : Sem.Stable (Sem.stdParams P) (keep name args.length prg) T) :
+    Sem.Stable (Sem.stdParams P) prg (extend P name args.length prg T) :=
+  unused_sound P name args.length prg (removable_unused prg inputs outputs added hok l c name args ext b hrem) T hT
+
+open Proofs.C09sem in
+/-- **costs are kept**: interpretations that agree off `n/k` give every objective that does not mention `n/k` the same
+cost tuples -/
+theorem C09_removal_costs (P : Sem.Params) (n : Sem.Sig) (s : Stm) (hav : stmAvoids n s = true) (T T' : Sem.Interp)
+    (hag : Sem.AgreeOffName n T T') (x : Sym × Sym × List Sym) :
+    Sem.costTuples (Sem.stdParams P) T s x ↔ Sem.costTuples (Sem.stdParams P) T' s x :=
+  unused_costs P n s hav T T' hag x
+
+open Proofs.C09sem in
+/-- the side condition survives the removal of another predicate's rules: the step can be iterated -/
+theorem C09_unused_keep (n m : String) (k j : Nat) (prg : Prog) (h : Unused n k prg) : Unused n k (keep m j prg) :=
+  fun s hs => h s (List.mem_filter.mp hs).1
+
+/-! non-vacuity: a program on which the model's decision fires (`a(X) :- c(X).` with `c/1` input, `d/0` output), and
+one on which it does not (the output predicate's own rule) -/
+section Example
+open Proofs.C09link
+private def r1 : Stm := .rule 1 1 (.lit (.pos, .sym (.fn "a" [.var "X"] false))) [.lit (.pos, .sym (.fn "c" [.var "X"] false))]
+private def r2 : Stm := .rule 2 1 (.lit (.pos, .sym (.fn "d" [] false))) [.lit (.neg, .sym (.fn "c" [.sym (.num 1)] false))]
+example : removable (analyzeUsage [r1, r2] [⟨"c", 1⟩] [⟨"d", 0⟩]) [] r1 = true := by
+  simp [removable, analyzeUsage, isUsed, r1, r2, stmEvents, bodyEvents, blitEvents, BLit.collect, BLit.terms, litTerms,
+    Atom.terms, Term.collect, Term.isFn, fnEvent, headEvents, fullEvent]
+example : removable (analyzeUsage [r1, r2] [⟨"c", 1⟩] [⟨"d", 0⟩]) [] r2 = false := by
+  simp [removable, analyzeUsage, isUsed, r1, r2, stmEvents, bodyEvents, blitEvents, BLit.collect, BLit.terms, litTerms,
+    Atom.terms, Term.collect, Term.isFn, fnEvent, headEvents, fullEvent]
+example : ∀ s ∈ [r1, r2], stmOk s = true := by simp [r1, r2, stmOk, headLitOk]
+end Example
 
 end NgoVerif
